@@ -528,8 +528,10 @@ func skipTraceWroteResponse(res *http.Response, err error) bool {
 		return true
 	}
 
-	// Skip traceeWroteResponse on successful protocol upgrade.
-	if res.StatusCode == http.StatusSwitchingProtocols {
+	// Skip traceeWroteResponse on successful protocol upgrade, that is when the response body
+	// has been handed over to the tunnel. A 101 status written any other way, e.g. relayed
+	// from an upstream proxy that rejected CONNECT, is an ordinary response.
+	if res.StatusCode == http.StatusSwitchingProtocols && res.Body == panicBody {
 		return true
 	}
 
